@@ -69,6 +69,12 @@ def gen_cases(ctx):
             n_ops = int(rng.integers(3, 25))
             hist = [ops.gen_op(rng, keys, max_value=50 if cfg["kind"] in ("log16", "log8") else None) for _ in range(n_ops)]
             yield {"cfg": cfg, "history": hist, "offsets": "all", "overwrite": bool((i + rd) % 2)}
+    # size-gated code paths (preallocation, chunked writers) only show on large sketches: one file above 1 MiB per class family
+    big = [{"kind": "hh", "width": 2048, "depth": 4, "max_key_len": 128}, {"kind": "linear", "width": 70000, "depth": 4},
+           {"kind": "log8", "width": 300000, "depth": 4, "max_count": 2**32 - 1, "num_reserved": 15}, {"kind": "hll", "p": 16, "seed": 1}]
+    for j, cfg in enumerate(big if not ctx.quick else big[:2]):
+        if ctx.quick or j % ctx.nshards == ctx.shard:
+            yield {"cfg": cfg, "history": [["add", "6162", 3], ["add", "63", 1]], "offsets": "tail+sample", "overwrite": False}
     yield {"cfg": {"kind": "linear", "width": 600, "depth": 2}, "history": [["add", "61", 3]], "offsets": "all", "embed": True}
     yield {"cfg": {"kind": "hll", "p": 12, "seed": 0}, "history": [["add", "61", 3]], "offsets": "all", "embed": True}
 
@@ -120,6 +126,11 @@ def run_case(case, ctx, mon):
         sig = b"PK\x05\x06"  # end-of-central-directory signature
         outer_eocd = full.rfind(sig)
         offs = case.get("offsets", "all")
+        if offs == "tail+sample":
+            # large files (1 MB and more): every offset of the last 6 kB, every offset of the first 600 bytes, and a sample between
+            rs = np.random.default_rng(size)
+            offs = set(range(max(0, size - 6000), size)) | set(range(0, min(size, 600))) | set(int(x) for x in rs.integers(0, size, 1500))
+            mon.count("large_files")
         offsets = range(size - 1, -1, -1) if offs == "all" else sorted((int(o) for o in offs), reverse=True)
         for off in offsets:
             os.truncate(path, off)
